@@ -14,7 +14,7 @@ RULE_TRACE = ("direction B: seeded drivers run histories on the real code (all 1
 def c01(run):
     wire_design(run, [])
     run.trace("roundtrip-canon", Q(run, 4, 60))
-    run.trace("stream", Q(run, 1, 10), seed_off=100)
+    run.trace("stream", Q(run, 2, 10), seed_off=100)
     run.assumptions += ["canonical domain decided by Canonical(T, v) in Codec.tla", "self-computed fields compared with the object the encoder left behind (their correctness is C04/C05)"]
     return run.finish(RULE_TRACE)
 
@@ -23,6 +23,8 @@ def c02(run):
     run.trace("roundtrip-wild", Q(run, 4, 60))
     run.trace("roundtrip-canon", Q(run, 2, 30), seed_off=100)
     run.trace("tables", Q(run, 1, 3), seed_off=200)
+    path, st = run.child_trace(run.spec_images(Q(run, 2, 12), reencode=False), "spec-images")
+    run.judge(path, st, "spec-images")
     run.assumptions += ["the pinned schema was frozen from the pinned commit (the .pdsl sources are not in the repository); byte order is per protocol, taken from the scalar fields"]
     return run.finish(RULE_TRACE)
 
@@ -58,6 +60,7 @@ def c05(run):
     run.trace("encode-any", Q(run, 30, 300), types=frames, seed_off=100, small=True)
     run.trace("tables", Q(run, 1, 3), types=frames, seed_off=200, small=True)
     run.trace("big-frames", Q(run, 3, 12), types=frames, seed_off=300, chunk=30)
+    run.parallel("history", Q(run, 30, 200), goroutines=16, rounds=2, seed_off=400, types=frames)   # the services are shared by all encoders
     run.assumptions += ["the four checksum services are registered (library start-up state)"]
     return run.finish(RULE_WIRE + RULE_TRACE + "Frames only (the three checksummed frame types x all their registered bodies).")
 
@@ -65,19 +68,27 @@ def c05(run):
 def c06(run):
     wire_design(run, [("MCWire_dev_overunread.cfg", "FramesRight"), ("MCWire_dev_abspatch.cfg", "FramesRight")])
     run.trace("history", Q(run, 3, 40))
-    run.trace("history", Q(run, 40, 400), types=["sse.SseBinary", "szse.SzseBinary", "risk.RcBinary", "sample.RootPacket", "bse.BjseBinary"], seed_off=100, small=True)
-    return run.finish(RULE_TRACE)
+    FR = ["sse.SseBinary", "szse.SzseBinary", "risk.RcBinary", "sample.RootPacket", "bse.BjseBinary"]
+    run.trace("history", Q(run, 40, 400), types=FR, seed_off=100, small=True)
+    run.trace("history", Q(run, 6, 60), types=FR, seed_off=150)
+    run.trace("big-frames", Q(run, 3, 12), types=FR, seed_off=200, chunk=30)
+    run.trace("encode-reuse", Q(run, 2, 20), seed_off=300)
+    return run.finish(RULE_WIRE + RULE_TRACE)
 
 
 def c07(run):
     wire_design(run, [])
     run.trace("stream", Q(run, 3, 40))
-    return run.finish(RULE_WIRE + RULE_TRACE)
+    run.trace("long-lists", Q(run, 1, 2), seed_off=100, chunk=8)
+    return run.finish(RULE_WIRE + RULE_TRACE + "long-lists: lists whose count x element size crosses 65,536 followed by a second message.")
 
 
 def c08(run):
     run.trace("reencode", Q(run, 5, 80))
-    return run.finish(RULE_TRACE)
+    path, st = run.child_trace(run.spec_images(Q(run, 2, 12)), "spec-images")
+    run.judge(path, st, "spec-images")
+    return run.finish(RULE_TRACE + "A: wire images rendered by the specification (Images.tla: the pinned rendering of sample values of all 170 types with every fixed text "
+                      "cut to 0/1/3/all bytes) are decoded by the real code and the result re-encoded (half of them after the receive buffer was recycled).")
 
 
 def c09(run):
@@ -121,6 +132,7 @@ RULE_HOSTILE = ("direction A: TLC derives, from sample values of all 170 types, 
 
 def c11(run):
     run.trace("cut", Q(run, 1, 12), chunk=4000)
+    run.trace("prim-cut", Q(run, 1, 8), seed_off=100)
     return run.finish(RULE_TRACE + "Every cut position 0..len-1 of each encoding (all cuts within the first/last 150 bytes plus 100 random ones for encodings over 400 bytes).")
 
 
@@ -176,6 +188,7 @@ def c13(run):
 def c14(run):
     run.trace("calc", Q(run, 1, 10), chunk=3000)
     run.trace("calc-giant", Q(run, 1, 2), seed_off=100)
+    run.trace("calc-reuse", Q(run, 1, 6), seed_off=150)
     if run.tier == "thorough":
         run.trace("calc-exhaustive2", 1, seed_off=200, chunk=20000)
     return run.finish(RULE_PRIM + "All strings of <= 1 byte, 2-byte strings over a 32-symbol boundary alphabet (all 65,536 in the thorough tier), 3-byte strings over 8 symbols, "
@@ -227,6 +240,7 @@ def c20(run):
     run.parallel("history", Q(run, 40, 300), goroutines=16, rounds=Q(run, 2, 4), seed_off=100, small=True,
                  types=["sse.SseBinary", "szse.SzseBinary", "risk.RcBinary", "sample.RootPacket", "bse.BjseBinary"])
     run.parallel("stream", Q(run, 1, 6), goroutines=8, rounds=1, seed_off=200)
+    run.parallel("encode-reuse", Q(run, 2, 10), goroutines=16, rounds=1, seed_off=300)
     run.assumptions += ["hidden shared state is found by the race detector and by results that differ from the solo run under contention: with high but not certain probability",
                         "discriminator tables and checksum services are only read after start-up (the side goroutines register/remove unrelated names only)"]
     return run.finish("design model: Parallel.tla (NonInterference; deviations SharedScratch and ClearOnSide must fail). B: the drivers' histories (all 170 types, "
